@@ -17,6 +17,7 @@ Event log (a list of tuples; the position in the list is the global sequence num
                                                    tnew = Timer constructed, tstart = Timer.start() (the same instant unless started=False)
   ("sel", t_from, t_to, why)                       one virtual select: ready | advance | quiesce | horizon
   ("cyc", n, [[tid, priority], ...], nleft)        ready queue at the start of Scheduler.cycle number n
+  ("exe", n, tid)                                  the task cycle n popped last, i.e. executed (its slice may abort without a step)
   ("srecv", sock, time, hex)  ("ssend", sock, time, marker, offered, accepted)
   ("overlap", running, entering, time)             re-entrancy flag was already set
   ("xexc", tid, exc type, where, text)             exception out of task.execute that the program did not ask for
@@ -152,6 +153,12 @@ class VSock(VFd):
 
 class _CountingDeque(deque):
   nleft = 0
+  last = None          # what the latest popleft() returned: the task Scheduler.cycle goes on to execute
+
+  def popleft(self):
+    x = deque.popleft(self)
+    self.last = x
+    return x
 
   def appendleft(self, x):
     self.nleft += 1
@@ -780,7 +787,12 @@ class Run(object):
         return False
       rq = sched._ready
       self.emit(("cyc", self.ncyc, [[self.tid_of(t), getattr(t, "priority", 1)] for t in list(rq)], rq.nleft))
-      return orig_cycle()
+      rq.last = None
+      try:
+        return orig_cycle()
+      finally:
+        if rq.last is not None:
+          self.emit(("exe", self.ncyc, self.tid_of(rq.last)))
     sched.cycle = cycle
     rt = self
 
